@@ -3,7 +3,7 @@
 
      [recovery if the partition state was dropped]  ->  validate  ->  build the event at
      (nextPLogOffset, NextWLogOffset, idGenerator)  ->  putPLog  ->  applyRecords  ->
-     fork(sync projector || PutWlog, both always run)  ->  reply  ->  drop the partition state
+     fork(sync projectors || PutWlog, both always run)  ->  reply  ->  drop the partition state
      if any write step failed.
 
    Every storage write consults a fault plan addressed by (logical target, k-th write to that
@@ -16,7 +16,10 @@
    goroutine dies (outcome RNone, partition state lost with the processor).
 
    Abstract: an event is (stamp, workspace, WLog offset, CUD rows after ID generation); a record is
-   (V, sys.IsActive); the sync projector writes row (ws, WLogOffset) -> stamp.  Everything before
+   (V, sys.IsActive); every sync projector writes row (ws, WLogOffset) -> stamp into its own view
+   (the sync actualizer flushes the projectors' intents one after the other, in the order of a Go
+   map; whether it stops at the first failing flush is a flag taken from the Go source:
+   c01_sync_flush_stops_at_error).  Everything before
    putPLog that can refuse a command (parsing, validation, authorization) is one boolean.
    Definitions only. *)
 From Coq Require Import List NArith Bool Lia.
@@ -50,6 +53,13 @@ Definition inner {A} (m : n2map A) (a : N) : nmap A :=
 Definition get2 {A} (m : n2map A) (a b : N) : option A := nget (inner m a) b.
 Definition put2 {A} (m : n2map A) (a b : N) (v : A) : n2map A := nput m a (nput (inner m a) b v).
 
+(* three levels: sync projector -> workspace -> key *)
+Definition n3map (A : Type) := nmap (n2map A).
+Definition inner3 {A} (m : n3map A) (j : N) : n2map A :=
+  match nget m j with Some i => i | None => [] end.
+Definition get3 {A} (m : n3map A) (j a b : N) : option A := get2 (inner3 m j) a b.
+Definition put3 {A} (m : n3map A) (j a b : N) (v : A) : n3map A := nput m j (put2 (inner3 m j) a b v).
+
 Definition is_some {A} (o : option A) : bool := match o with Some _ => true | None => false end.
 
 (* ---------- events, records, the store ---------- *)
@@ -68,7 +78,7 @@ Record store := mkStore {
   plog : nmap event;     (* PLog offset -> event *)
   wlog : n2map event;    (* ws, WLog offset -> event *)
   recs : n2map rec;      (* ws, record id -> record *)
-  proj : n2map N         (* ws, WLog offset -> stamp (view row of the sync projector) *)
+  proj : n3map N         (* sync projector, ws, WLog offset -> stamp (its view row) *)
 }.
 
 Definition store0 : store := mkStore [] [] [] [].
@@ -167,6 +177,13 @@ Definition issue (plan : list fault) (t : target) (op : N) (l : wlogT) : option 
 
 (* ---------- trust-level tables (Gen.Params, from istructsmem/impl.go) ---------- *)
 
+(* what the model takes from the Go source besides the trust level *)
+Record conf := mkConf {
+  k_fx : bool;      (* cmdProc.putPLog hands PutPlog's error to the pipeline *)
+  k_early : bool;   (* the sync actualizer's flush loop stops at the first error *)
+  k_tl : N          (* sequences trust level *)
+}.
+
 Definition tl_flag (tbl : list N) (tl : N) : bool :=
   match nth_error tbl (N.to_nat tl) with Some 1 => true | _ => false end.
 Definition plog_cond (tl : N) : bool := tl_flag c05_plog_ops tl.
@@ -198,11 +215,24 @@ Definition w_wlog (cond : bool) (plan : list fault) (e : event) (s : store) (l :
   let '(app, ok) := wr f cond (is_some (get2 (wlog s) (e_ws e) (e_woff e))) in
   (if app then set_wlog s (put2 (wlog s) (e_ws e) (e_woff e) e) else s, l', ok).
 
-(* the sync projector's intent, applied by one PutBatch of the view row *)
-Definition w_proj (plan : list fault) (e : event) (s : store) (l : wlogT) : store * wlogT * bool :=
+(* the intent of sync projector j, applied by one PutBatch of its view row (ApplyIntents) *)
+Definition w_proj1 (plan : list fault) (j : N) (e : event) (s : store) (l : wlogT) : store * wlogT * bool :=
   let '(f, l') := issue plan TView opPutBatch l in
   let '(app, ok) := wr f false false in
-  (if app then set_proj s (put2 (proj s) (e_ws e) (e_woff e) (e_tag e)) else s, l', ok).
+  (if app then set_proj s (put3 (proj s) j (e_ws e) (e_woff e) (e_tag e)) else s, l', ok).
+
+(* syncActualizerFactory, step "IntentsApplier": the states of the projectors are flushed in the
+   order ord; `err = st.ApplyIntents()` in a loop. early = the loop returns at the first error;
+   otherwise every state is flushed and the error of the last one is the step's error.
+   last = the result so far. *)
+Fixpoint w_projs (early : bool) (plan : list fault) (ord : list N) (e : event) (s : store) (l : wlogT)
+  (last : bool) : store * wlogT * bool :=
+  match ord with
+  | [] => (s, l, last)
+  | j :: r =>
+      let '(s1, l1, ok) := w_proj1 plan j e s l in
+      if negb ok && early then (s1, l1, false) else w_projs early plan r e s1 l1 ok
+  end.
 
 (* putRecordsBatch, trust level 0: one call per record, InsertIfNotExists for new ones; stops at
    the first failure *)
@@ -233,8 +263,9 @@ Definition w_recs_batch (plan : list fault) (ws : N) (rs : list (N * rec * bool)
 
 (* cmdProc.storeOp: applyRecords, then the fork (sync projectors || PutWlog); both branches of
    the fork always run; reapply = through IEventReapplier (recovery) *)
-Definition store_op (tl : N) (plan : list fault) (reapply : bool) (e : event) (s : store) (l : wlogT)
+Definition store_op (k : conf) (ord : list N) (plan : list fault) (reapply : bool) (e : event) (s : store) (l : wlogT)
   : store * wlogT * bool :=
+  let tl := k_tl k in
   match results (recs s) (e_ws e) (e_cuds e) with
   | None => (s, l, false)
   | Some rs =>
@@ -242,7 +273,7 @@ Definition store_op (tl : N) (plan : list fault) (reapply : bool) (e : event) (s
         if recs_each tl reapply then w_recs_each plan (e_ws e) rs s l
         else w_recs_batch plan (e_ws e) rs s l in
       if negb ok1 then (s1, l1, false) else
-      let '(s2, l2, okv) := w_proj plan e s1 l1 in
+      let '(s2, l2, okv) := w_projs (k_early k) plan ord e s1 l1 true in
       let '(s3, l3, okw) := w_wlog (wlog_cond tl reapply) plan e s2 l2 in
       (s3, l3, okv && okw)
   end.
@@ -276,12 +307,12 @@ Definition state0 : state := mkState store0 None.
 
 (* cmdProc.recovery: returns the store, the call log, and the partition state unless a write of
    the re-apply failed *)
-Definition recover (tl : N) (plan : list fault) (s : store) (l : wlogT) : store * wlogT * option part :=
+Definition recover (k : conf) (ord : list N) (plan : list fault) (s : store) (l : wlogT) : store * wlogT * option part :=
   let p := scan (plog s) in
   match last_opt (map snd (plog s)) with
   | None => (s, l, Some p)
   | Some e =>
-      let '(s1, l1, ok) := store_op tl plan true e s l in
+      let '(s1, l1, ok) := store_op k ord plan true e s l in
       (s1, l1, if ok then Some p else None)
   end.
 
@@ -344,13 +375,14 @@ Definition bump (p : part) (e : event) : part :=
 (* o_written: the event reached the PLog (the durable commit point) *)
 Record outcome := mkOut { o_reply : reply; o_written : bool; o_calls : wlogT }.
 
-(* one command through the processor. fx = cmdProc.putPLog returns the error of PutPlog *)
-Definition process (fx : bool) (tl tag : N) (c : command) (plan : list fault) (st : state)
+(* one command through the processor; ord = the order in which the sync actualizer serving it
+   flushes the projectors *)
+Definition process (k : conf) (ord : list N) (tag : N) (c : command) (plan : list fault) (st : state)
   : state * outcome :=
   let '(s0, l0, mp) :=
     match mem st with
     | Some p => (sto st, [], Some p)
-    | None => recover tl plan (sto st) []
+    | None => recover k ord plan (sto st) []
     end in
   match mp with
   | None => (mkState s0 None, mkOut RClient false l0)
@@ -359,11 +391,11 @@ Definition process (fx : bool) (tl tag : N) (c : command) (plan : list fault) (s
   | Some p =>
       if negb (valid_cmd s0 c) then (mkState s0 (Some p), mkOut RClient false l0) else
       let e := build_event s0 p tag c in
-      let '(s1, l1, (written, okp)) := w_plog (plog_cond tl) plan (nextP p) e s0 l0 in
+      let '(s1, l1, (written, okp)) := w_plog (plog_cond (k_tl k)) plan (nextP p) e s0 l0 in
       if negb okp then
-        (mkState s1 None, mkOut (if fx then RServer else RNone) written l1)
+        (mkState s1 None, mkOut (if k_fx k then RServer else RNone) written l1)
       else
-        let '(s2, l2, oks) := store_op tl plan false e s1 l1 in
+        let '(s2, l2, oks) := store_op k ord plan false e s1 l1 in
         if negb oks then (mkState s2 None, mkOut RServer true l2)
         else (mkState s2 (Some (bump p e)), mkOut (ROk (e_woff e) (new_ids (e_cuds e))) true l2)
   end.
@@ -372,15 +404,21 @@ Inductive step := SCmd (c : command) (plan : list fault) | SRestart.
 
 (* commands are stamped 1, 2, 3 ... (the harness's clock). After RNone the dead processor is
    replaced by a new one: its partition state is gone, which `process` already says. *)
-Fixpoint run (fx : bool) (tl tag : N) (steps : list step) (st : state) : state * list outcome :=
+(* ords: the flush order of the sync actualizer that serves the command with a given stamp (a
+   Go map order, fixed when the partition is deployed; any function here) *)
+Fixpoint run (k : conf) (ords : N -> list N) (tag : N) (steps : list step) (st : state) : state * list outcome :=
   match steps with
   | [] => (st, [])
-  | SRestart :: r => run fx tl tag r (mkState (sto st) None)
+  | SRestart :: r => run k ords tag r (mkState (sto st) None)
   | SCmd c plan :: r =>
-      let '(st1, o) := process fx tl tag c plan st in
-      let '(st2, os) := run fx tl (tag + 1) r st1 in
+      let '(st1, o) := process k (ords tag) tag c plan st in
+      let '(st2, os) := run k ords (tag + 1) r st1 in
       (st2, o :: os)
   end.
+
+(* every one of the np projectors (numbered 0..np-1) is flushed, no other *)
+Definition ord_ok (np : N) (ord : list N) : Prop := forall j, In j ord <-> j < np.
+Definition ords_ok (np : N) (ords : N -> list N) : Prop := forall t, ord_ok np (ords t).
 
 (* ---------- traces ---------- *)
 
@@ -390,15 +428,16 @@ Inductive ostep :=
 
 Record trace := mkTrace {
   t_tl : N;
+  t_np : N;   (* number of sync projectors of the test application *)
   (* judge everything except "exactly one reply": set on the second copy of a trace in which the
      processor died, so that the known finding F11 cannot hide another violation *)
   t_lenient : bool;
   t_steps : list ostep;
-  (* read back after the last command: PLog, WLog per workspace, records, view rows *)
+  (* read back after the last command: PLog, WLog per workspace, records, view rows per projector *)
   t_plog : nmap event;
   t_wlog : n2map event;
   t_recs : n2map rec;
-  t_proj : n2map N
+  t_proj : n3map N
 }.
 
 Definition ecud_eqb (a b : ecud) : bool :=
@@ -450,26 +489,33 @@ Fixpoint obs_match (os : list ostep) (outs : list outcome) : bool :=
   end.
 
 (* implementation model vs observation: replies, issued storage calls, fired faults, final stores *)
+Fixpoint nseq (o : N) (n : nat) : list N :=
+  match n with O => [] | S n' => o :: nseq (o + 1) n' end.
+
+(* the model with the flags of the Go source *)
+Definition code_conf (tl : N) : conf := mkConf c01_putplog_returns_err c01_sync_flush_stops_at_error tl.
+
+(* The flush order of the real sync actualizer is a Go map order; which projector a k-th view
+   write belongs to is not compared. Nothing that is compared depends on it (replies, number and
+   kind of the calls, the stores after the final clean command), so the model runs with 0,1,2... *)
 Definition agrees (t : trace) : bool :=
-  let '(st, outs) := run c01_putplog_returns_err (t_tl t) 1 (steps_of (t_steps t)) state0 in
+  let '(st, outs) := run (code_conf (t_tl t)) (fun _ => nseq 0 (N.to_nat (t_np t))) 1 (steps_of (t_steps t)) state0 in
   obs_match (t_steps t) outs
   && nmap_eqb event_eqb (t_plog t) (plog (sto st))
   && n2map_eqb event_eqb (t_wlog t) (wlog (sto st))
   && n2map_eqb rec_eqb (t_recs t) (recs (sto st))
-  && n2map_eqb N.eqb (t_proj t) (proj (sto st)).
+  && nmap_eqb (n2map_eqb N.eqb) (t_proj t) (proj (sto st)).
 
 (* ---------- the property judged on the observation alone ---------- *)
-
-Fixpoint nseq (o : N) (n : nat) : list N :=
-  match n with O => [] | S n' => o :: nseq (o + 1) n' end.
 
 Fixpoint dedup (l : list N) : list N :=
   match l with [] => [] | x :: r => if existsb (N.eqb x) r then dedup r else x :: dedup r end.
 
 (* the four stores describe the same list of events: PLog offsets 1..n; per workspace the WLog
    holds exactly the PLog events of that workspace, in order, at offsets 1..m, each carrying its
-   own offset; the records are the fold of the PLog; one view row per event *)
-Definition consistentb (pl : nmap event) (wl : n2map event) (rc : n2map rec) (pj : n2map N) : bool :=
+   own offset; the records are the fold of the PLog; one view row per event in the view of every
+   one of the np sync projectors, and no other view rows *)
+Definition consistentb (np : N) (pl : nmap event) (wl : n2map event) (rc : n2map rec) (pj : n3map N) : bool :=
   let es := map snd pl in
   list_eqb N.eqb (map fst pl) (nseq 1 (length es))
   && forallb (fun ws =>
@@ -477,7 +523,10 @@ Definition consistentb (pl : nmap event) (wl : n2map event) (rc : n2map rec) (pj
        && list_eqb N.eqb (map e_woff (ws_events ws es)) (nseq 1 (length (ws_events ws es))))
      (dedup (map e_ws es ++ map fst wl))
   && n2map_eqb rec_eqb rc (recs_of es)
-  && n2map_eqb N.eqb pj (map (fun x => (fst x, map (fun y => (fst y, e_tag (snd y))) (snd x))) wl).
+  && forallb (fun j => n2map_eqb N.eqb (inner3 pj j)
+                         (map (fun x => (fst x, map (fun y => (fst y, e_tag (snd y))) (snd x))) wl))
+             (nseq 0 (N.to_nat np))
+  && forallb (fun x => fst x <? np) pj.
 
 Definition find_tag (es : list event) (tag : N) : list event := filter (fun e => e_tag e =? tag) es.
 
@@ -549,7 +598,7 @@ Definition n_cmds (os : list ostep) : N :=
 
 Definition satisfies (t : trace) : bool :=
   let es := map snd (t_plog t) in
-  consistentb (t_plog t) (t_wlog t) (t_recs t) (t_proj t)
+  consistentb (t_np t) (t_plog t) (t_wlog t) (t_recs t) (t_proj t)
   && acts_ok [] es
   && replies_ok (t_lenient t) es 1 (t_steps t)
   && forallb (fun e => (1 <=? e_tag e) && (e_tag e <=? n_cmds (t_steps t))) es.
@@ -564,15 +613,16 @@ Definition events (st : state) : list event := map snd (plog (sto st)).
    - per workspace the WLog holds exactly the PLog events of that workspace, in log order, at
      offsets 1, 2, ... without a gap, and each event carries the WLog offset it is stored at;
    - the records are the fold of the PLog events;
-   - the synchronous projection has exactly one row per WLog row, with that event's stamp. *)
-Definition consistent (s : store) : Prop :=
+   - the view of every one of the np synchronous projectors has exactly one row per WLog row,
+     with that event's stamp. *)
+Definition consistent (np : N) (s : store) : Prop :=
   let es := map snd (plog s) in
   map fst (plog s) = nseq 1 (length es)
   /\ (forall ws w, get2 (wlog s) ws w =
                    if w =? 0 then None else nth_error (ws_events ws es) (N.to_nat (w - 1)))
   /\ (forall ws, map e_woff (ws_events ws es) = nseq 1 (length (ws_events ws es)))
   /\ (forall ws id, get2 (recs s) ws id = get2 (recs_of es) ws id)
-  /\ (forall ws w, get2 (proj s) ws w = option_map e_tag (get2 (wlog s) ws w)).
+  /\ (forall j, j < np -> forall ws w, get3 (proj s) j ws w = option_map e_tag (get2 (wlog s) ws w)).
 
 (* the reply of a command whose event e is in the log: a success names e's WLog offset and new
    IDs; a client error (4xx) is never given for a command that is in the log *)
